@@ -31,10 +31,10 @@ REQUIRED = [_T + n for n in [
     "C09_bridge_clamp", "C09_bridge_retry", "C09_bridge_candidates", "C09_bridge_tangent",
     "C09_bridge_perp_cut", "C09_bridge_end_rows", "C09_bridge_spring_literals",
     "C09_image_count", "C09_image_count_object", "C09_endpoints", "C09_interp_in_box",
-    "C09_end_gradient_zero", "C09_ends_fixed_of_LBFGSB", "C09_in_box_of_LBFGSB",
+    "C09_end_gradient_zero", "C09_interior_row", "C09_ends_fixed_of_LBFGSB", "C09_in_box_of_LBFGSB",
     "C09_candidates_iff", "C09_candidates_ascending", "C09_candidates_positions",
     "C09_nudged_orthogonal", "C09_nudged_decomposition", "C09_spring_parallel",
-    "C09_tangent_upwind", "C09_tangent_unit_or_zero",
+    "C09_tangent_upwind", "C09_tangent_rows", "C09_tangent_unit_or_zero",
     "C09_no_residue_density", "C09_no_residue_outputs", "C09_no_residue_history",
     "C09_spring_restoring_partial", "C09_spring_restoring_of_repaired_sign",
     "C09_spring_sign_as_coded", "C09_spring_not_restoring_as_coded",
@@ -343,12 +343,22 @@ def correspond(ctx: Ctx) -> None:
     b.run(ctx)
 
 
+def count_margin(eff, x1, x2):
+    """(density*dist as the code computes it, whether that float is the exact real value,
+    whether it is too close to an integer to compare `int()` when it is not exact)"""
+    a, c = np.array(x1, dtype=float), np.array(x2, dtype=float)
+    dist = float(np.linalg.norm(a - c))
+    d2 = sum((Fraction(float(u)) - Fraction(float(v))) ** 2 for u, v in zip(a, c))
+    p = eff * dist
+    exact = Fraction(dist) ** 2 == d2 and Fraction(eff) * Fraction(dist) == Fraction(p)
+    near = (not exact) and abs(p - round(p)) < 1e-7 * max(1.0, abs(p))
+    return p, dist, exact, near
+
+
 def interp_call(ctx, b, neb, box, x1, x2, attempts, exact, label, hist):
     """one initial_interpolation on `neb` and on the model object; compare everything it sets"""
     eff = neb.original_image_density * 1.5 * attempts if attempts > 0 else neb.image_density
-    dist = float(np.linalg.norm(np.array(x1) - np.array(x2)))
-    p = eff * dist
-    near = (not exact) and abs(p - round(p)) < 1e-7 * max(1.0, abs(p))
+    p, dist, exact, near = count_margin(eff, x1, x2)
     coords = new_coords(box, x1)
     band = neb.initial_interpolation(coords, np.array(x2, dtype=float), attempts, None)
     st = impl_state(neb)
@@ -393,7 +403,7 @@ def interp_call(ctx, b, neb, box, x1, x2, attempts, exact, label, hist):
 
 
 def corr_interp(ctx, rng, b):
-    nobj = ctx.scale(40, 250)
+    nobj = ctx.scale(60, 600)
     for oi in range(nobj):
         d = rng.choice([1, 2, 2, 3, 4])
         box = gen_box(rng, d)
@@ -431,9 +441,9 @@ def corr_interp(ctx, rng, b):
 
 
 def corr_tangents(ctx, rng, b):
-    for _ in range(ctx.scale(250, 1500)):
-        n = rng.randrange(3, 9)
-        d = rng.choice([1, 2, 2, 3])
+    for _ in range(ctx.scale(400, 5000)):
+        n = rng.randrange(3, ctx.scale(9, 14))
+        d = rng.choice([1, 2, 2, 3, 4])
         band = gen_band(rng, n, d, rng.choice(["axis", "pyth", "free", "line"]))
         e = gen_energies(rng, n, rng.choice(ENERGY_KINDS))
         consistent(band, e, [[0.0] * d for _ in range(n)])
@@ -469,9 +479,9 @@ def corr_tangents(ctx, rng, b):
         b.add([line], check)
 
 
-def gradient_case(rng, uniform_k=False):
-    n = rng.randrange(3, 9)
-    d = rng.choice([1, 2, 2, 3])
+def gradient_case(rng, uniform_k=False, nmax=9):
+    n = rng.randrange(3, nmax)
+    d = rng.choice([1, 2, 2, 3, 4])
     band = gen_band(rng, n, d, rng.choice(["axis", "pyth", "free", "line"]))
     e = gen_energies(rng, n, rng.choice(ENERGY_KINDS))
     g = [[dy(rng, -2, 2, 0.25) for _ in range(d)] for _ in range(n)]
@@ -495,7 +505,7 @@ def impl_gradient(n, band, e, g, ks):
 
 def corr_gradient(ctx, rng, b):
     cases = [(4, [[0.0], [1.0], [1.5], [3.0]], [0.0] * 4, [[0.0]] * 4, [1.0] * 3)]   # the §6 witness
-    cases += [gradient_case(rng) for _ in range(ctx.scale(250, 1500))]
+    cases += [gradient_case(rng, nmax=ctx.scale(9, 14)) for _ in range(ctx.scale(400, 5000))]
     for n, band, e, g, ks in cases:
         try:
             f, grad, _ = impl_gradient(n, band, e, g, ks)
@@ -527,8 +537,8 @@ def corr_gradient(ctx, rng, b):
 
 
 def corr_candidates(ctx, rng, b):
-    for _ in range(ctx.scale(150, 1000)):
-        m = rng.randrange(2, 10)
+    for _ in range(ctx.scale(250, 3000)):
+        m = rng.randrange(2, ctx.scale(10, 16))
         d = rng.choice([1, 2, 3])
         band = gen_band(rng, m, d, "free")
         e = gen_energies(rng, m, rng.choice(ENERGY_KINDS))
@@ -566,7 +576,7 @@ def corr_perp(ctx, rng, b):
     neb = new_neb(TablePot(), 1.0, 1.0, 50)
     cases = [([1.0, 2.0], [0.0, 0.0]), ([1.0, 2.0], [2.0 ** -22, 0.0]), ([1.0, 2.0], [2.0 ** -21, 0.0]),
              ([1.0], [2.0 ** -23]), ([3.0, -1.0, 0.5], [0.0, 1.0, 0.0])]
-    for _ in range(ctx.scale(60, 400)):
+    for _ in range(ctx.scale(100, 1500)):
         d = rng.randrange(1, 5)
         v = [dy(rng, -3, 3, 0.125) for _ in range(d)]
         t = [dy(rng, -2, 2, 0.25) for _ in range(d)] if rng.random() < 0.85 else [0.0] * d
@@ -645,7 +655,7 @@ def gen_run_sequence(rng, quick_len):
 
 
 def corr_runs(ctx, rng, b):
-    for _ in range(ctx.scale(8, 40)):
+    for _ in range(ctx.scale(12, 150)):
         cfg = gen_run_sequence(rng, rng.randrange(3, 6))
         pot, box = surface(cfg["surface"])
         neb = new_neb(pot, cfg["k"], cfg["density"], cfg["max"])
@@ -667,8 +677,7 @@ def corr_runs(ctx, rng, b):
             l1 = f"interp {attempts} {V(x1)} {V(x2)} {BOX(box)}"
             l2 = f"finish {M(cap['opt'])} {V(cap['energies'])}"
             eff = cfg["density"] * 1.5 * attempts if attempts > 0 else cfg["density"]
-            p = eff * float(np.linalg.norm(np.array(x1) - np.array(x2)))
-            near = abs(p - round(p)) < 1e-7 * max(1.0, abs(p))
+            p, _dist, _exact, near = count_margin(eff, x1, x2)
             same = (fresh["cands"] == cap["cands"] and fresh["pos"].tobytes() == cap["pos"].tobytes()
                     and fresh["opt"].tobytes() == cap["opt"].tobytes())
             hist = hist + [l1, l2]
@@ -945,18 +954,18 @@ def predicates(ctx: Ctx) -> None:
         ctx.stats.case({"stream": "predicate-corpus", "run": cfg["surface"]}, True)
         _run_pred(ctx, pred_runs, (cfg,), "run", {"pred": "runs", "case": cfg})
     # seeded
-    for _ in range(ctx.scale(150, 1000) * deep):
-        case = gradient_case(rng, uniform_k=True)
+    for _ in range(ctx.scale(300, 4000) * deep):
+        case = gradient_case(rng, uniform_k=True, nmax=ctx.scale(9, 14))
         ctx.stats.case({"stream": "predicate-gradient", "n": case[0]}, True)
         _run_pred(ctx, pred_gradient, case, "band_function_gradient", {"pred": "gradient", "case": list(case)})
-    for _ in range(ctx.scale(150, 1000) * deep):
-        m = rng.randrange(3, 10)
+    for _ in range(ctx.scale(300, 3000) * deep):
+        m = rng.randrange(3, ctx.scale(10, 16))
         band = gen_band(rng, m, rng.choice([1, 2, 3]), "free")
         e = gen_energies(rng, m, rng.choice(ENERGY_KINDS))
         consistent(band, e, [[0.0]] * m)
         ctx.stats.case({"stream": "predicate-candidates", "n": m}, True)
         _run_pred(ctx, pred_candidates, (m, band, e), "find_ts_candidates", {"pred": "candidates", "case": [m, band, e]})
-    for _ in range(ctx.scale(60, 400) * deep):
+    for _ in range(ctx.scale(100, 1500) * deep):
         d = rng.choice([1, 2, 3, 4])
         box = gen_box(rng, d)
         calls = []
@@ -970,7 +979,7 @@ def predicates(ctx: Ctx) -> None:
                 rng.choice([10, 11, 15, 20, 50]), box, calls)
         ctx.stats.case({"stream": "predicate-interp", "d": d}, True)
         _run_pred(ctx, pred_interp, case, "initial_interpolation", {"pred": "interp", "case": list(case)})
-    for _ in range(ctx.scale(6, 40) * deep):
+    for _ in range(ctx.scale(10, 150) * deep):
         cfg = gen_run_sequence(rng, rng.randrange(2, 5))
         ctx.stats.case({"stream": "predicate-runs", "surface": cfg["surface"]}, True)
         ctx.contract("LBFGSB", True)
